@@ -899,6 +899,7 @@ class Interp:
         if isinstance(o, VBool): return z3.And(d.kind == 1, d.i == z3.If(o.term, 1, 0))
         if isinstance(o, VInt): return z3.And(d.kind == 1, d.i == o.term)
         if isinstance(o, VStr): return z3.And(d.kind == 2, d.s == o.term)
+        if isinstance(o, VBytes): return z3.And(d.kind == 4, d.s == o.term)
         return z3.BoolVal(False)
 
     def equal(self, a, b):
